@@ -91,7 +91,7 @@ theorem nearestTri_exact (s : Search ℝ) (h : BallInv s.root) (tris : Int → V
   unfold Search.nearestTri
   apply nearestWith_eq _ x s.root d0 h
   intro e he
-  obtain ⟨y, hy, hd⟩ := dist2triWith_attained tri3Foot tri3Foot_along
+  obtain ⟨y, hy, hd⟩ := dist2triWith_attained tri3FootRepo tri3FootRepo_along
     (tris e.item).1 (tris e.item).2.1 (tris e.item).2.2 x
   have hb := inTri_in_ball e.pos _ _ _ e.rad (hin e he).1 (hin e he).2.1 (hin e he).2.2 y hy
   have ht := edist_triangle e.pos y x
@@ -206,7 +206,7 @@ theorem dist2seg_near_min (p0 p1 x y : V3 ℝ) (hy : OnSeg p0 p1 y) :
 
 /-- the value is the distance to a point of the closed triangle (interior branch and edge fall-back) -/
 theorem dist2tri_attained (p0 p1 p2 x : V3 ℝ) : ∃ y, InTri p0 p1 p2 y ∧ dist2tri p0 p1 p2 x = edist x y :=
-  dist2triWith_attained tri3Foot tri3Foot_along p0 p1 p2 x
+  dist2triWith_attained tri3FootRepo tri3FootRepo_along p0 p1 p2 x
 
 /-- FULL minimality over the closed triangle (interior included, degenerate triangles included):
     `triSlack · value ≤ dist(x, y)` for every `y` in the triangle, where `triSlack = 1` unless one of the
@@ -214,7 +214,7 @@ theorem dist2tri_attained (p0 p1 p2 x : V3 ℝ) : ∃ y, InTri p0 p1 p2 y ∧ di
     The un-normalised normal used by the C for the projection is harmless in exact arithmetic. -/
 theorem dist2tri_min (p0 p1 p2 x y : V3 ℝ) (hy : InTri p0 p1 p2 y) :
     triSlack p0 p1 p2 x * dist2tri p0 p1 p2 x ≤ edist x y :=
-  dist2triWith_min tri3Foot tri3Foot_along p0 p1 p2 x y hy
+  dist2triWith_min tri3FootRepo tri3FootRepo_along p0 p1 p2 x y hy
 
 /-- exact form: with the three edge guards passing (or zero-length edges) the value is the minimum -/
 theorem dist2tri_min_exact (p0 p1 p2 x y : V3 ℝ) (h01 : SegGuard p0 p1 x ∨ p0 = p1)
@@ -228,7 +228,7 @@ theorem dist2tri_near_min (p0 p1 p2 x y : V3 ℝ) (hy : InTri p0 p1 p2 y) :
     (1 - eps20) * dist2tri p0 p1 p2 x ≤ edist x y := by
   have h1 := dist2tri_min p0 p1 p2 x y hy
   have h2 := triSlack_ge p0 p1 p2 x
-  have h3 := dist2triWith_nonneg tri3Foot tri3Foot_along p0 p1 p2 x
+  have h3 := dist2triWith_nonneg tri3FootRepo tri3FootRepo_along p0 p1 p2 x
   unfold dist2tri at h1 ⊢
   nlinarith
 
